@@ -71,11 +71,69 @@ def default_policy(facts, caller, callee, keep):
     return True
 
 
+def _ref_base(raw, l, defs):
+    """local r such that local l is a plain copy / whole reborrow (`&mut *r`, `&*r`) of the reference held in r
+    (followed transitively); l itself if it is not such a copy"""
+    seen = set()
+    while l not in seen:
+        seen.add(l)
+        d = defs.get(l)
+        if d is None or len(d) != 1:
+            return l
+        r = d[0]
+        if r.get('k') == 'ref' and r['p'].get('pj') == ['*']:
+            l = r['p']['l']
+            continue
+        if r.get('k') == 'use':
+            q = r['o'].get('m') or r['o'].get('c')
+            if q is not None and not q.get('pj'):
+                l = q['l']
+                continue
+        return l
+    return l
+
+
+def _subst_locals(x, subst):
+    if isinstance(x, dict):
+        out = {}
+        for k, v in x.items():
+            if k == 'l' and isinstance(v, int) and not isinstance(v, bool) and v in subst:
+                out[k] = subst[v]
+            else:
+                out[k] = _subst_locals(v, subst)
+        return out
+    if isinstance(x, list):
+        return [_subst_locals(v, subst) for v in x]
+    return x
+
+
 def splice(raw, bb, craw, tag):
     """replace the call terminating block bb of raw by an inlined copy of craw"""
     call = raw['blocks'][bb]['t']
     loff = len(raw['locals'])
     boff = len(raw['blocks'])
+    # reference parameters that are plain (re)borrows of a caller reference are replaced by that reference in the copied
+    # code: `(*self').field` of a helper taking `&mut self` is `(*self).field` of the caller
+    from .combinators import _whole_defs
+    cdefs = _whole_defs(raw)
+    subst = {}
+    reassigned = set()
+    for blk in craw['blocks']:
+        for st in blk['s']:
+            if st['k'] == 'assign' and not st['p'].get('pj'):
+                reassigned.add(st['p']['l'])
+        if blk['t']['k'] == 'call' and not blk['t']['dest'].get('pj'):
+            reassigned.add(blk['t']['dest']['l'])
+    for k, a in enumerate(call['args']):
+        pl = a.get('m') or a.get('c')
+        if pl is None or pl.get('pj'):
+            continue
+        pty = craw['locals'][k + 1]['ty'] if k + 1 < len(craw['locals']) else ''
+        if not pty.startswith('&') or (k + 1) in reassigned:
+            continue
+        base = _ref_base(raw, pl['l'], cdefs)
+        if raw['locals'][base]['ty'].startswith('&'):
+            subst[loff + 1 + k] = base
     for i, l in enumerate(craw['locals']):
         l2 = dict(l)
         l2['inl'] = tag
@@ -84,9 +142,14 @@ def splice(raw, bb, craw, tag):
             l2['oname'] = l2.pop('name')
         if l2.pop('user', None):
             l2['iuser'] = True
+            # the helper's own variables stay variables (a mutably borrowed iterator is opaque in the caller as well);
+            # its parameters are temporaries bound to the caller's argument expressions
+            if i > craw.get('arg_count', 0):
+                l2['user'] = True
         raw['locals'].append(l2)
     for blk in craw['blocks']:
-        nb = {'s': _renum_locals(blk['s'], loff), 't': _renum_targets(_renum_locals(copy.deepcopy(blk['t']), loff), boff)}
+        nb = {'s': _subst_locals(_renum_locals(blk['s'], loff), subst),
+              't': _renum_targets(_subst_locals(_renum_locals(copy.deepcopy(blk['t']), loff), subst), boff)}
         for k in blk:
             if k not in ('s', 't'):
                 nb[k] = blk[k]
@@ -301,18 +364,24 @@ def thread_variants(raw, max_rounds=40, max_chain=8):
 
 # ------------------------------------------------------------------ driver
 
-def inlined(facts, body, keep=None, depth=3, policy=default_policy, thread=True, combinators=True):
+def new_function_policy(facts, caller, callee, keep):
+    """inline whatever the rules have never seen (keep = the frozen list of known functions)"""
+    return callee.kind in ('Fn', 'AssocFn', 'Closure') and not (keep is not None and keep(callee.path)) and \
+        len(callee.blocks) <= 150
+
+
+def inlined(facts, body, keep=None, depth=3, policy=default_policy, thread=True, combinators=True, closureless=True):
     """Body equal to `body` with small crate-local helpers inlined (see module doc). `keep(path)` -> True keeps a
     callee as a call. The result is cached on the facts object."""
     cache = facts.__dict__.setdefault('_inline_cache', {})
-    ck = (body.path, id(keep) if keep is not None else None, depth, thread, combinators, id(policy))
+    ck = (body.path, id(body), id(keep) if keep is not None else None, depth, thread, combinators, id(policy), closureless)
     if ck in cache:
         return cache[ck]
     raw = copy.deepcopy(body.raw)
     expanded = []
     if combinators and not os.environ.get('VERIF_NO_COMBINATORS'):
         from . import combinators as comb
-        expanded = comb.expand(raw, facts, keep)
+        expanded = comb.expand(raw, facts, keep, closureless=closureless)
     level = {i: 0 for i in range(len(raw['blocks']))}
     stack_of = {i: (body.path,) for i in range(len(raw['blocks']))}
     names = []
